@@ -25,13 +25,14 @@ func init() {
 			"fingerprints recomputed with Go's crypto/*, Version against the encoded INTEGER, SelfSigned against (issuer bytes == subject bytes AND signature verifies under the certificate's own SPKI " +
 			"with Go's standard library / math/big), ValidityPeriod against NotAfter-NotBefore; CT leg: families = one TBS with the CT poison and/or an SCT list (0-2 SCTs) inserted at every position " +
 			"of the extension list, all FingerprintNoCT equal and different from the serial+1 control; non-trivial = accepted certificate on which every applicable field was compared, or a CT family " +
-			"with >= 3 accepted members; distinct by hash of the DER bytes / of the family base",
+			"with >= 3 accepted members; name leg: certificates whose issuer and subject are equal as printed but different as bytes (string type, RDN grouping, order inside a SET, case, " +
+			"whitespace), with different-name and equal-bytes controls, each signed by its own key and by another key; distinct by hash of the DER bytes / of the family base",
 		MinNontrivial:         8000,
 		MinNontrivialThorough: 250000,
 		Shards:                16,
 		GoMaxProcs:            2,
 		Assumptions: []string{
-			"issuer 'equals' subject is read as byte equality of the two encodings; certificates whose names are equal only after normalisation are counted (ambiguous_name_equality) and not asserted",
+			"issuer 'equals' subject is byte equality of the two encodings: names that are equal only as printed (other string type, RDN grouping, SET order, case, whitespace) are different names",
 			"self-signature is decided only for key/algorithm combinations the independent verifier can decide with certainty (sane RSA, ECDSA P-224..P-521 with strict DER signatures, Ed25519, DSA with hash <= q); others are counted as undecided",
 		},
 	}, runC06)
@@ -188,11 +189,11 @@ func c06Check(c *core.Ctx, cert *zx509.Certificate, raw []byte, mode bool, desc,
 	complete := versionOK
 	rawEq := bytes.Equal(sub(issuer), sub(subject))
 	switch {
-	case !rawEq && looseNameEqual(issuer, subject):
-		c.Count("ambiguous_name_equality", 1)
-		complete = false
 	case !rawEq:
 		c.Count("selfsigned_decided:issuer!=subject", 1)
+		if looseNameEqual(issuer, subject) {
+			c.Count("selfsigned_decided:issuer!=subject_as_bytes_but_equal_as_printed", 1)
+		}
 		if cert.SelfSigned {
 			viol("self-signed:set-although-issuer-differs-from-subject", "SelfSigned = true but issuer and subject encodings differ")
 		}
@@ -375,6 +376,23 @@ func runC06(c *core.Ctx) {
 			c.Sample(map[string]string{"how": desc, "der": core.Hex(raw)})
 		}
 	}
+	// name leg: equal as printed, different as bytes
+	gn := &gen{r: c.SubRng("names")}
+	nn := c.PerShard(c.Pick(6000, 200000))
+	for i := 0; i < nn; i++ {
+		raw, desc := gn.nameVariantCert()
+		cert, mode, ok := parseEither(c, raw)
+		c.Count("name_leg_generated", 1)
+		if !ok {
+			c.Count("name_leg_rejected", 1)
+			continue
+		}
+		c.Eval(1)
+		c.Count("name_leg:"+desc[:strings.IndexByte(desc, ' ')], 1)
+		if c06Check(c, cert, raw, mode, desc, fmt.Sprintf("names-s%d-%d", c.Shard, i)) {
+			c.Nontrivial(raw)
+		}
+	}
 	// CT leg
 	g := &gen{r: c.SubRng("ct")}
 	nf := c.PerShard(c.Pick(600, 16000))
@@ -385,4 +403,100 @@ func runC06(c *core.Ctx) {
 		}
 		c.Eval(1)
 	}
+}
+
+// nameVariantCert builds a certificate whose issuer and subject stand in a chosen relation
+// (kind) and that is signed either by its own key or by another key.
+func (g *gen) nameVariantCert() ([]byte, string) {
+	_, fast := signers()
+	own := fast[g.n(len(fast))]
+	sg := own
+	signedBy := "own-key"
+	if g.chance(35) {
+		for sg = fast[g.n(len(fast))]; sg == own; sg = fast[g.n(len(fast))] {
+		}
+		signedBy = "other-key"
+	}
+	vals := []string{"Example Org", "Verif Test CA", "example.com", "ACME Inc", "Unit 7", "DE"}
+	type atv struct {
+		oid []int
+		val string
+		tag int
+	}
+	tags := []int{der.TagPrintableString, der.TagUTF8String, der.TagIA5String, der.TagT61String, der.TagBMPString, der.TagVisibleString}
+	nAtv := 2 + g.n(3)
+	base := make([]atv, nAtv)
+	oids := [][]int{{2, 5, 4, 10}, {2, 5, 4, 3}, {2, 5, 4, 11}, {2, 5, 4, 7}, {2, 5, 4, 8}}
+	g.r.Shuffle(len(oids), func(i, j int) { oids[i], oids[j] = oids[j], oids[i] })
+	for i := range base {
+		base[i] = atv{oids[i], vals[g.n(len(vals))], tags[g.n(2)]}
+	}
+	enc := func(a atv) *der.Node {
+		if a.tag == der.TagBMPString {
+			return der.Seq(der.OID(a.oid...), der.BMP(a.val))
+		}
+		return der.Seq(der.OID(a.oid...), der.Str(a.tag, a.val))
+	}
+	// plain: one RDN per attribute
+	plain := func(as []atv) *der.Node {
+		var rdns []*der.Node
+		for _, a := range as {
+			rdns = append(rdns, der.Set(enc(a)))
+		}
+		return der.Seq(rdns...)
+	}
+	issuer := plain(base)
+	var subject *der.Node
+	kind := []string{"string-type", "rdn-grouping", "set-order", "case", "whitespace", "different", "equal-bytes"}[g.n(7)]
+	alt := append([]atv(nil), base...)
+	switch kind {
+	case "string-type":
+		i := g.n(len(alt))
+		for t := alt[i].tag; t == alt[i].tag; {
+			alt[i].tag = tags[g.n(len(tags))]
+		}
+		subject = plain(alt)
+	case "rdn-grouping": // the first two attributes as one multi-valued RDN in one name, as two RDNs in the other
+		grouped := der.Seq(append([]*der.Node{der.Set(enc(base[0]), enc(base[1]))}, plain(base[2:]).Children...)...)
+		subject = grouped
+		if g.chance(50) {
+			issuer, subject = grouped, plain(base)
+		}
+	case "set-order": // same multi-valued RDN, attributes in the other order
+		issuer = der.Seq(append([]*der.Node{der.Set(enc(base[0]), enc(base[1]))}, plain(base[2:]).Children...)...)
+		subject = der.Seq(append([]*der.Node{der.Set(enc(base[1]), enc(base[0]))}, plain(base[2:]).Children...)...)
+	case "case":
+		i := g.n(len(alt))
+		if g.chance(50) {
+			alt[i].val = strings.ToUpper(alt[i].val)
+		} else {
+			alt[i].val = strings.ToLower(alt[i].val)
+		}
+		if alt[i].val == base[i].val {
+			alt[i].val = strings.ToLower(base[i].val) + "x"
+			kind = "different"
+		}
+		subject = plain(alt)
+	case "whitespace":
+		i := g.n(len(alt))
+		alt[i].val = []string{alt[i].val + " ", " " + alt[i].val, strings.Replace(alt[i].val, " ", "  ", 1) + " "}[g.n(3)]
+		subject = plain(alt)
+	case "different":
+		i := g.n(len(alt))
+		alt[i].val += " 2"
+		subject = plain(alt)
+	default:
+		subject = issuer.Clone()
+	}
+	alg, fn := sg.sign(g.r)
+	nb, na := g.genTime(), g.genTime()
+	if na.Before(nb) {
+		nb, na = na, nb
+	}
+	p := &certParts{Version: 2, Serial: new(big.Int).SetBytes(append([]byte{1}, g.bytes(8)...)), SigAlg: alg, Issuer: issuer, Subject: subject,
+		NotBefore: der.Time(nb), NotAfter: der.Time(na), SPKI: own.spki(), signFn: fn}
+	if g.chance(50) {
+		p.Exts = []*der.Node{extension([]int{2, 5, 29, 19}, true, der.Seq(der.Bool(true)))}
+	}
+	return p.assemble(), kind + " signed-by:" + signedBy + " key:" + own.name
 }
